@@ -144,7 +144,21 @@ def run_engine(wh_exe, driver, cases, geom, tag, shards=C.NPROC):
         n = len(c)
         res[i] = (outs[k][pos[k]:pos[k] + n], mouts[k][pos[k]:pos[k] + n])
         pos[k] += n
+    # A case whose instance could not even be created (its run directory vanished or could not
+    # be made: something outside the engine) is run once more, alone; if that works the first
+    # attempt was an environment hiccup, otherwise the second attempt's output stands.
+    redo = [i for i, c in enumerate(cases) if res[i][0] and res[i][0][0] != "ok" and _retry_ok]
+    if redo and _retry_ok:
+        base2 = C.shm_dir(tag + "r")
+        for i in redo:
+            out, rc, err = C.run_lines([wh_exe, "engine", base2], cases[i], timeout=600)
+            if len(out) == len(cases[i]):
+                res[i] = (out, res[i][1])
+        shutil.rmtree(base2, ignore_errors=True)
     return res
+
+
+_retry_ok = True
 
 
 def strip_hash(tok):
